@@ -419,6 +419,10 @@ def into_data(val: Convertible, ty: t.Optional[IntoConverter] = None, *,
 
     try:
         conv = make_converter(ty, ConverterHandlers.make(custom))
+        if inferred and type(val) in _ScalarType and hasattr(conv.into_data, '_original'):
+            # a custom converter for a scalar type which doesn't say how to write it: the scalar is written as it is
+            # (what the same converter does for an element of a list)
+            return val
         # hack to not use the default into_data implementation here (it would call us again with the same type).
         # With an explicit `ty` (e.g. a Literal, None or Any) the default implementation is fine.
         assert not (inferred and hasattr(conv.into_data, '_original'))
